@@ -2,8 +2,9 @@
 
     Definitions only, generic over [Num].  A mesh is the vector of triangle slots plus the counter
     [n_valid_triangles].  Every mutating operation is a state transformer [MR A := Mesh -> Mesh * res A]
-    that returns the NEW mesh together with the outcome, because several operations mutate before
-    failing (e.g. [split_edge] invalidates the base triangle and then fails in [push]).
+    that returns the NEW mesh together with the outcome, because operations may mutate before
+    failing (before fix 361bbb9 [split_edge] invalidated the base triangle and then failed in [push]:
+    Model/PinnedMesh.v keeps that text; the live steps now test every child with Triangle3D::new first).
 
     ** Panic sites (every [panic!] / [unreachable!] / [unwrap] / index / [% 0] / usize underflow)
     -  10  Triangle3D::new: is_collinear(..).unwrap()                         (Model/Triangle.v)
@@ -291,6 +292,9 @@ Section Triangulation.
       mdo aopp_edge <- mlift (edge_of_points 78%N (tp_tri nb) vertex_a opposite);
       let neighbour_aopp_i := tp_neighbour nb aopp_edge in
       let constrain_aopp := tp_is_constrained nb aopp_edge in
+      (* fix 361bbb9: refuse BEFORE mutating: the two new triangles must be constructible *)
+      mdo _ <- mlift (tri_new vertex_a opposite vertex_c);
+      mdo _ <- mlift (tri_new vertex_c opposite vertex_b);
       (* INVALIDATE THE ORIGINAL TRIANGLES, AND PUSH THE NEW ONES *)
       mdo _ <- mesh_invalidate index;
       mdo _ <- mesh_invalidate neighbour_index;
@@ -345,12 +349,26 @@ Section Triangulation.
     mdo _ <- mwhen bc_c (mupd 82%N pbc_i (tp_constrain Bc));
     mret (apc_i, pbc_i).
 
+  (** fix 361bbb9: the check [split_edge] now runs on each hemisphere BEFORE the first mutation: every child must be
+      constructible (the slot is read by [self.triangles[idx]]: out of bounds = site 81) *)
+  Definition split_precheck (segment_to_split : Seg K) (p : V) (idx : nat) : MR unit :=
+    mdo t <- mget 81%N idx;
+    mdo ab_i <- mlift (match tri_get_edge_index_from_segment (tp_tri t) segment_to_split with
+                       | Some i => Ok i | None => Err 107%N end);
+    mdo ab <- mlift (tri_segment (tp_tri t) ab_i);
+    mdo c <- mlift (get_opposite_vertex (tp_tri t) ab);
+    mdo _ <- mlift (tri_new (sstart ab) p c);
+    mdo _ <- mlift (tri_new p (send ab) c);
+    mret tt.
+
   (** [split_edge] *)
   Definition split_edge (triangle_index : nat) (edge_to_split : Edge) (p : V) : MR unit :=
     mdo t <- mget 80%N triangle_index;
     if negb (tp_valid t) then mlift (Err 106%N) else
     mdo segment_to_split <- mlift (tri_segment (tp_tri t) (edge_as_i edge_to_split));
     let nei_i := tp_neighbour t edge_to_split in
+    mdo _ <- split_precheck segment_to_split p triangle_index;
+    mdo _ <- match nei_i with Some nei => split_precheck segment_to_split p nei | None => mret tt end;
     mdo top <- process_hemisphere segment_to_split p triangle_index;
     let '(top_left_i, top_right_i) := top in
     match nei_i with
@@ -383,6 +401,10 @@ Section Triangulation.
     mdo edge <- mlift (edge_of_points_err (tp_tri t) vertex_c vertex_a);
     let neighbour_ca_i := tp_neighbour t edge in
     let constrain_ca := tp_is_constrained t edge in
+    (* fix 361bbb9: refuse BEFORE mutating: the three children must be constructible *)
+    mdo _ <- mlift (tri_new vertex_c vertex_a point);
+    mdo _ <- mlift (tri_new vertex_a vertex_b point);
+    mdo _ <- mlift (tri_new vertex_b vertex_c point);
     mdo _ <- mesh_invalidate i;
     mdo cap_i <- mesh_push vertex_c vertex_a point 0;
     mdo abp_i <- mesh_push vertex_a vertex_b point 0;
